@@ -14,8 +14,12 @@ import CookModel.Analysis.Model
     `RoundTrips` (parse ∘ print = id on finite values) is a fact about serde_json built with
     `float_roundtrip` (trusted base).  A non-finite `f64` is written as `null` (and cannot be read
     back: that is why the property is about finite numbers).
-  * `Metadata.map` (a `serde_yaml::Mapping`) is an opaque JSON object: after the repair of the
-    front-matter check every parsed mapping has string keys and no tags, i.e. is a JSON tree.
+  * `Metadata.map` (a `serde_yaml::Mapping`) is an opaque JSON object: the model only covers
+    metadata that IS JSON-representable (every mapping key, at any depth, a string; no tagged
+    value) — this is built into the type `Metadata := List (Str × Json)`.  Front matter outside
+    that class (`1: x`, `true: y`, `~: z`, `? [a, b]`, `!tag v`) is accepted by the parser and does
+    NOT survive serialization: known finding F-C15-1 (KNOWN_FINDINGS.json), re-found by the
+    oracle on the implementation in every run; the model cannot express it.
   * `ScaleOutcome::Error(#[serde(skip)] ScaleError)`: the payload is not written and is read back as
     `ScaleError::default()` (`UndefinedError`).
 -/
